@@ -95,9 +95,23 @@ func LoadVariants(verif string) ([]Variant, error) {
 	for _, rf := range refs {
 		rel, _ := filepath.Rel(verif, rf)
 		base := strings.TrimSuffix(filepath.Base(rf), ".diff")
+		// <id>.limits.json: properties for which this refactoring is beyond the rules' idioms - a documented
+		// false alarm (fail closed), reported as LIMIT, never counted as caught or as silent
+		var lim struct {
+			FalseAlarms map[string]string `json:"false_alarms"`
+		}
+		if lb, err := os.ReadFile(strings.TrimSuffix(rf, ".diff") + ".limits.json"); err == nil {
+			if err := json.Unmarshal(lb, &lim); err != nil {
+				return nil, fmt.Errorf("%s.limits.json: %v", base, err)
+			}
+		}
 		for i := 1; i <= 20; i++ {
 			pid := fmt.Sprintf("C%02d", i)
-			vs = append(vs, Variant{ID: "REF-" + base + "-" + pid, Property: pid, Rule: "*", Expect: "silent", Patch: rel, Note: "behaviour-preserving refactoring " + base})
+			exp, note := "silent", "behaviour-preserving refactoring "+base
+			if why, ok := lim.FalseAlarms[pid]; ok {
+				exp, note = "limit", note+" - documented false alarm: "+why
+			}
+			vs = append(vs, Variant{ID: "REF-" + base + "-" + pid, Property: pid, Rule: "*", Expect: exp, Patch: rel, Note: note})
 		}
 	}
 	metas, _ := filepath.Glob(filepath.Join(verif, "seeded", "*", "meta.json"))
@@ -209,6 +223,12 @@ func RunVariant(opt Options, v Variant) VariantResult {
 		}
 	case "silent":
 		res.OK = res.Outcome == "silent"
+	case "limit":
+		// a documented false alarm: must still be an alarm (if it went silent the limits file is out of date)
+		res.OK = res.Outcome == "fired"
+		if !res.OK {
+			res.Detail = "listed as a documented false alarm but the check is " + res.Outcome + ": remove it from the limits file. " + res.Detail
+		}
 	}
 	return res
 }
@@ -247,8 +267,12 @@ func RunSelftest(opt Options, spec *PropertySpec) map[string]interface{} {
 	}
 	wg.Wait()
 	var failures []string
+	var limits []string
 	fired, silent, skipped := 0, 0, 0
 	for _, r := range results {
+		if r.Expect == "limit" && r.OK {
+			limits = append(limits, r.ID)
+		}
 		switch r.Outcome {
 		case "fired":
 			fired++
@@ -263,7 +287,7 @@ func RunSelftest(opt Options, spec *PropertySpec) map[string]interface{} {
 	}
 	return map[string]interface{}{
 		"variants": len(mine), "fired": fired, "silent": silent, "skipped": skipped,
-		"results": results, "failures": failures,
+		"results": results, "failures": failures, "documented_false_alarms": limits,
 		"rule": "each stored mutant/seeded patch is applied to a scratch copy of the current tree and must make the static check fire; each stored refactor must leave it silent; entries whose text no longer occurs are skipped",
 	}
 }
